@@ -213,7 +213,10 @@ def suggest_pattern(description):
     """Generate a suggested regex pattern from a raw description."""
     import re
 
-    desc = description.upper()
+    # Upper-case for readability, but leave characters whose upper-case form is longer
+    # ('ß' -> 'SS', ligatures) as they are: regex() matches case-insensitively, and
+    # 'STRASSE' would not match the 'straße' the suggestion was made for
+    desc = ''.join(c.upper() if len(c.upper()) == 1 else c for c in description)
 
     # Remove common suffixes that vary
     desc = re.sub(r'\s+\d{4,}.*$', '', desc)  # Remove trailing numbers (store IDs)
